@@ -428,7 +428,8 @@ def classify_rolling(bad_line, info):
     if tensor - 1 >= len(info) or tensor < 1:
         return None
     b = info[tensor - 1]
-    if b["over"] > 1 + b["slack"]:
+    # only a buffer of exactly the documented size round_up(p + c, c) can be the recorded defect
+    if b["B"] == rup(b["p"] + b["c"], b["c"]) and b["over"] > 1 + b["slack"]:
         return KEY_ROLL
     return None
 
@@ -487,7 +488,7 @@ def part_c(ck):
 
     L.install_profiles()
     pipe_common.CORPUS = [c for c in pipe_common.CORPUS if c[0] != "known_pad_tall"] + [("known_pad_tall", 0, 0)]
-    n = 40 if not ck.thorough else 700
+    n = 160 if not ck.thorough else 3000
     profiles = ["cascade_chain", "c10_pad_tall", "cascade", "c10_pool_chain", "c10_upscale", "c10_slice", "c10_dilated", "mixed",
                 "cascade_chain", "elementwise", "weights", "c10_pool_chain"]
     outs = pipe_common.run_corpus(ck, n, profiles=profiles, want={"extra": L.extract})
@@ -634,13 +635,17 @@ def classify_net_rolling(bad_line, recs):
                         over=cons["sy"] + cons["skirt"][0] + cons["skirt"][2] - kdil, slack=B - p - c, consumer=cons["name"])
     ifm = cons["read_shape"] or cons["ifm_shape"]
     wo = cons["write_offset"] or [0, 0, 0, 0]
+    rk = classify_net_stripe(cons, "rows", "")
+    if rk in (KEY_READ, KEY_READROWS):
+        # the rows addressed are wrong because of the fused slice read (same defect as the receptive-field rejection of this stripe)
+        return rk, info
     if (cons["mode"] == 0 and cons["block"] in CONV_LIKE and row >= ifm[1] and cons["ofm_box"][1][1] - wo[1] > ifm[1]
             and not (cons["first"] and cons["last"])):
         # the row read lies below the last IFM row: the lost pad_bottom of an OFM stripe that ends below the IFM
         return KEY_TALL, info
     if info is None or found == "-" or int(found) <= row:
         return None, info
-    if info["B"] < cons["ifm_shape"][1] and info["over"] > 1 + info["slack"]:
+    if info["B"] < cons["ifm_shape"][1] and info["B"] == rup(info["p"] + info["c"], info["c"]) and info["over"] > 1 + info["slack"]:
         return KEY_ROLL, info
     return None, info
 
@@ -682,6 +687,8 @@ def report_c(ck, Cp):
     dis = [i for i, (m, r) in enumerate(zip(Cp["corr_model"], Cp["corr_real"])) if m != r]
     for i in dis:
         ck.count("C_model_disagreement_" + Cp["corr_owner"][i][0])
+        if os.environ.get("C10_DEBUG"):
+            print("DISAGREE", Cp["corr_owner"][i][0], Cp["corr_owner"][i][1]["profile"], Cp["corr_owner"][i][1]["idx"], "\n ", Cp["corr"][i][:1500], "\n M", Cp["corr_model"][i][:1500], "\n R", Cp["corr_real"][i][:1500])
     if dis and not unknown:
         i = min(dis, key=lambda j: len(Cp["corr"][j]))
         kind, o, si, ci = Cp["corr_owner"][i]
@@ -739,12 +746,34 @@ def report_b(ck, Bp):
                       "case": Bp["metas"][i], "n": len(Bp["dis"])}, found_input=False)
 
 
+def replay(ck, path):
+    """re-run the Lean request stored in a replay file (Spec verdict or model answer) and print both"""
+    import json
+
+    r = json.load(open(path if os.path.isabs(path) else os.path.join(common.VERIF, path)))["replay"]
+    lines = [r[k] for k in ("spec_request", "request") if k in r and not r[k].endswith("…")]
+    outs = ck.model(lines, parallel=False) if lines else []
+    bad = False
+    for ln, o in zip(lines, outs):
+        print("request:", ln[:400])
+        print("lean   :", o[:400])
+        if "implementation" in r and ln == r.get("request"):
+            print("impl   :", r["implementation"][:400])
+            bad |= o != r["implementation"]
+        else:
+            bad |= not (o.startswith("recv=1 cov=1") or o in ("1", "ok"))
+    print("how to regenerate the input:", r.get("how_to_replay") or r.get("replay"))
+    sys.exit(1 if bad else 0)
+
+
 def main():
     if os.environ.get("PYTHONHASHSEED") != "0":
         # pipe_common seeds its per-network generator with hash(profile): pin the string hash so a run replays
         os.execve(sys.executable, [sys.executable] + sys.argv, dict(os.environ, PYTHONHASHSEED="0"))
     ck = Check("C10", "proof")
     ck.lean_stage(["VelaVerif.Props.C10"])
+    if ck.replay_arg:
+        replay(ck, ck.replay_arg)
     common.setup_repo_path()
     A = part_a(ck)
     report_a(ck, A)
@@ -752,9 +781,55 @@ def main():
     report_b(ck, Bp)
     Cp = part_c(ck)
     programs, rejected, cdis = report_c(ck, Cp)
-    print("C", programs, rejected, len(cdis), Cp["n_stripes"])
-    ck.finish({"evaluations": len(A["reqs"]) + len(A["spec"]), "distinct_nontrivial": len(set(A["reqs"])), "rule": "tbd",
-               "A_disagreements": len(A["dis"]), "A_spec_rejections": len(A["spec_bad"])})
+    # evidence ------------------------------------------------------------------------------------
+    a_nontrivial = len({A["spec"][i] for i, m in enumerate(A["spec_meta"]) if m["y1"] - m["y0"] < m["OH"]})
+    b_nontrivial = len({rq for rq, rl in zip(Bp["reqs"], Bp["reals"]) if rl.count(";") >= 1})
+    c_nontrivial = len({Cp["reqs"][i] for i, ow in enumerate(Cp["owners"]) if ow[0] == "recv" and not
+                        (ow[2]["extra"][ow[3]]["stripes"][ow[4]]["first"] and ow[2]["extra"][ow[3]]["stripes"][ow[4]]["last"])})
+    c_nontrivial += len({Cp["corr"][i] for i, ow in enumerate(Cp["corr_owner"]) if ow[0] == "cascade" and Cp["corr_real"][i].count(";") >= 1})
+    for i in (0, len(A["spec"]) // 2, len(A["spec"]) - 1):
+        ck.sample({"spec_request": A["spec"][i], "lean_verdict": A["spec_out"][i], "case": A["spec_meta"][i]})
+    j = next((i for i, m in enumerate(Bp["metas"]) if m[0] == "cascade"), 0)
+    ck.sample({"request": Bp["reqs"][j][:300], "model": Bp["outs"][j][:300], "real_generator": Bp["reals"][j][:300]})
+    for i, ow in enumerate(Cp["owners"]):
+        if ow[0] == "rolling" and "cascade" in (ow[2].get("features") or []):
+            ck.sample({"network": ow[2]["desc"], "opts": ow[2]["opts"], "rolling_request": Cp["reqs"][i][:300], "lean_verdict": Cp["ans"][i]})
+            break
+    unreached = []
+    if not any(r.startswith("err:assert") for r in A["reals"]):
+        unreached.append("Box.__init__ assertion in transform")
+    if not any(" err:value" in r for r in Bp["reals"]):
+        unreached.append("range() step 0 in the generator")
+    if not any(r == "err:unsupported" for r in A["reals"]):
+        unreached.append("addresses_for_rolling_buffer width crossing")
+    ck.finish({
+        "evaluations": len(A["reqs"]) + len(A["spec"]) + len(Bp["reqs"]) + len(Bp["spec"]) + len(Cp["reqs"]) + len(Cp["corr"]),
+        "distinct_nontrivial": a_nontrivial + b_nontrivial + c_nontrivial,
+        "rule": "distinct request lines; non-trivial = (A) a transform + create_padding result for a stripe that is not the whole operator, "
+                "judged by the Lean receptive-field/coverage Spec; (B) a run of the real generator on mock scheduler objects that emits "
+                "more than one stripe; (C) a stripe of a compiled network that is not the whole operator (rows and columns judged "
+                "separately) or a compiled operator group whose issue order has more than one stripe",
+        "exhaustive": True,
+        "exhaustive_scope": "transform_with_strides_and_skirt + create_padding: IFM height 1..12, kernel 1..8, stride 1..3, dilation 1..2, SAME / VALID / "
+                            "explicit (pads in {0,1,k_dil//2}), every stripe [y0,y1) of the OFM (quick tier thins stripes for k_dil > 5), upscaling 2 "
+                            "(transpose k 1..8 SAME/VALID, nearest k 1..8 VALID/explicit bottom) H 1..6 every stripe; stripe loops: OFM height 1..12 x every step; "
+                            "needed_total_padding / calc_explicit_padding / rolling_buffer_shape / addresses_for_rolling_buffer on small grids",
+        "A_model_requests": len(A["reqs"]), "A_exhaustive_requests": A["n_exhaustive"], "A_disagreements": len(A["dis"]),
+        "A_spec_checked_real_outputs": len(A["spec"]), "A_spec_rejections": len(A["spec_bad"]),
+        "B_generator_runs": len(Bp["reqs"]), "B_disagreements": len(Bp["dis"]), "B_spec_checked": len(Bp["spec"]), "B_spec_rejections": len(Bp["spec_bad"]),
+        "programs": len(Cp["outs"]), "C_stripes": Cp["n_stripes"], "C_spec_requests": programs, "C_spec_rejections": rejected,
+        "C_model_requests": len(Cp["corr"]), "C_model_disagreements": len(cdis), "C_networks_with_multi_stripe_operator": len(Cp["nets_multi"]),
+        "disagreements_checked": len(A["spec_bad"]) + len(Bp["spec_bad"]) + rejected,
+        "unreached_branches": unreached,
+        "trusted_base_extra": ["hardware assumption: the NPU has no IFM-height register; a tap is padding iff it lies before the box start or at/after "
+                               "(ofm_h-1)*stride + k_dil - pad_top - pad_bottom (Spec/Receptive.lean hwSrc)",
+                               "IFM_UPSCALE transpose = zeros inserted after every row/column, nearest = every row/column repeated",
+                               "Spec.checkPartition (inside + pairwise disjoint + volumes add up) is the executable form of Spec.Partition"],
+    }, assumptions=["sequential execution in issue order for the rolling-buffer rule (ordering between hardware queues is C04's subject)",
+                    "row-granular rolling-buffer simulation (columns and channels of a row are written together)",
+                    "operators with tile padding, stride multipliers or transposed OFM (resize/transpose decompositions) are outside the box model: "
+                    "counted as C_receptive_skipped_special_addressing",
+                    "kernel, stride, dilation and original padding of compiled stripes are read from the operator (op.kernel, attrs explicit_padding)"])
 
 
 if __name__ == "__main__":
